@@ -94,6 +94,13 @@ func (h *half) state() (n, rwait, wwait int, closed bool) {
 	return len(h.buf), h.rwait, h.wwait, h.closed
 }
 
+// discard drops whatever is buffered (only used after the writer side was closed).
+func (h *half) discard() {
+	h.mu.Lock()
+	h.buf = h.buf[:0]
+	h.mu.Unlock()
+}
+
 // peek copies up to len(p) buffered bytes without consuming them.
 func (h *half) peek(p []byte) int {
 	h.mu.Lock()
